@@ -37,7 +37,7 @@ package coalesce
 
 // old(...) below is the state at the moment the mutex was acquired.
 //@ func (*Queue).insert
-//@   props C11 C08 C04 C12
+//@   props C11 C08 C04 C05 C12
 //@   arith wrap
 //@   locks q
 //@   effect insertSteps := insertSteps + 1
@@ -52,7 +52,7 @@ package coalesce
 // dequeues: items handed out by next (ghost).
 //@ ghost dequeues int
 //@ func (*Queue).next
-//@   props C11 C08 C04 C12
+//@   props C11 C08 C04 C05 C12
 //@   effect dequeues := dequeues + ite(res2, 1, 0)
 //@   locks q
 //@   requires q != nil
@@ -75,7 +75,7 @@ package coalesce
 // otherwise the item is pending when Insert returns, and the wake-up send
 // never blocks and never hits a closed channel.
 //@ func (*Queue).Insert
-//@   props C11 C08 C04 C12
+//@   props C11 C08 C04 C05 C12
 //@   requires QStable(q)
 //@   modifies ghost insertSteps, sends(q.inserted)
 //@   ensures [refused-after-close] old(closed(q.closed)) ==> !res0 && res1 == errClosedQueue && insertSteps == old(insertSteps)
@@ -85,7 +85,7 @@ package coalesce
 //@   ensures [duplicate-not-signalled C11] !res0 ==> sends(q.inserted) == old(sends(q.inserted))
 
 //@ func (*Queue).Close
-//@   props C11 C12
+//@   props C11 C05 C12
 //@   locks q
 //@   requires QStable(q)
 //@   modifies closed(q.closed)
@@ -101,13 +101,13 @@ package coalesce
 // completed before the close has been delivered); a valid item is returned as
 // soon as next() yields one.
 //@ func (*Queue).Next
-//@   props C11 C04 C12
+//@   props C11 C04 C05 C12
 //@   requires QStable(q) && ctx != nil
 //@   ensures [closed-only-when-empty] res2 == errClosedQueue ==> closed(q.closed) && len(q.queue) == 0
 //@   ensures [valid-item] res2 == nil ==> !has(q.coalesced, res0) && QInv(q)
 //@   modifies ghost dequeues
 //@   invariant 0: dequeues == old(dequeues)
-//@   ensures [exactly-one-item-consumed C11 C04] (res2 == nil ==> dequeues == old(dequeues) + 1) && (res2 != nil ==> dequeues == old(dequeues))
+//@   ensures [exactly-one-item-consumed C11 C04 C05] (res2 == nil ==> dequeues == old(dequeues) + 1) && (res2 != nil ==> dequeues == old(dequeues))
 //@   ensures [an-error-carries-nothing C11] res2 != nil ==> res0 == nil && res1 == 0
 
 //@ func IsClosedQueue
